@@ -1201,8 +1201,8 @@ func (t *Tree) Compile(file string, args []string, out io.Writer) (err error) {
 			printBegin()
 			printSave(out)
 			element := n.Front()
-			element.SetParentDetect(n.ParentDetect())
-			element.SetParentMultipleKey(n.ParentMultipleKey())
+			element.SetParentDetect(false)
+			element.SetParentMultipleKey(false)
 			compile(element, out)
 			printJump(again)
 			printLabel(out)
@@ -1213,6 +1213,8 @@ func (t *Tree) Compile(file string, args []string, out io.Writer) (err error) {
 			label++
 			out := label
 			label++
+			n.Front().SetParentDetect(false)
+			n.Front().SetParentMultipleKey(false)
 			compile(n.Front(), ko)
 			printLabel(again)
 			printBegin()
